@@ -328,7 +328,7 @@ func (p *C09Pool) Build(i int) C09Built {
 
 // C09Entropy describes a deterministic endless byte stream.
 type C09Entropy struct {
-	Kind  int    `json:"kind"`  // 0 zeros; 1 0xff; 2 counter; 3 a repeated 64-byte block; 4 pseudo-random stream
+	Kind  int    `json:"kind"` // 0 zeros; 1 0xff; 2 counter; 3 a repeated 64-byte block; 4 pseudo-random stream
 	Seed  uint64 `json:"seed"`
 	Chunk int    `json:"chunk"` // max bytes returned per Read (0 = as many as asked)
 }
